@@ -72,6 +72,9 @@ func C16Req(t *rapid.T, label string, concurrent bool) *world.Req {
 
 // C16 generates a sequential warm-up followed by concurrent request threads.
 func C16(t *rapid.T) *world.Scenario {
+	if Pct(t, "hammer", 5) {
+		return c16Hammer(t)
+	}
 	sc := &world.Scenario{Prop: "C16", Backend: Pick(t, "backend", "mem", "mem", "fs")}
 	nw := rapid.IntRange(0, 3).Draw(t, "warm")
 	for i := 0; i < nw; i++ {
@@ -89,5 +92,33 @@ func C16(t *rapid.T) *world.Scenario {
 		}
 		sc.Threads = append(sc.Threads, th)
 	}
+	return sc
+}
+
+// c16Hammer: several threads store the same URI again and again (end-to-end reloads) with
+// bodies of very different sizes on a file-system backend, then the entry is read back.
+func c16Hammer(t *rapid.T) *world.Scenario {
+	sc := &world.Scenario{Prop: "C16", Backend: Pick(t, "hbackend", "fs", "fs", "fsenc", "mem")}
+	u := "http://a.test/c16/hammer"
+	mk := func(lbl string, reload bool) *world.Req {
+		rq := &world.Req{Method: "GET", URL: u}
+		if reload {
+			rq.Header = [][2]string{H("Cache-Control", "no-cache")}
+		}
+		// delimited by the end of the stored entry: a spliced file shows as a spliced body
+		rp := world.Reply{Kind: "resp", Status: 200, Shape: Pick(t, lbl+"-shape", "close", "close", "h2nolen", "cl"), Body: world.Body{Len: Pick(t, lbl+"-blen", 16, 5000, 70000, 150000), Class: "rand", Seed: uint64(rapid.IntRange(1, 99).Draw(t, lbl+"-seed"))},
+			Header: [][2]string{H("Date", "$T+0"), H("Cache-Control", "max-age=1000"), H("Etag", `"v$S"`)}}
+		rq.Uncond, rq.Cond = rp, &rp
+		return rq
+	}
+	nth := rapid.IntRange(3, 6).Draw(t, "hthreads")
+	for ti := 0; ti < nth; ti++ {
+		var th []*world.Req
+		for i := 0; i < rapid.IntRange(2, 4).Draw(t, "hn"+itoa(int64(ti))); i++ {
+			th = append(th, mk("h"+itoa(int64(ti))+"-"+itoa(int64(i)), true))
+		}
+		sc.Threads = append(sc.Threads, th)
+	}
+	sc.After = []world.Step{ReqStep(mk("after0", false)), ReqStep(mk("after1", false))}
 	return sc
 }
